@@ -59,7 +59,10 @@ c.param("self", T.Obj("pdfminer.layout:LTExpandableContainer"))
 c.skip_cross = True
 c.inline = True
 c.mod("self.*")
-c.ens("starts-as-the-empty-union", lambda self: And(has_box(self, (INF, INF, -INF, -INF)), len(self._objs) == 0))
+c.ens("starts-as-the-empty-union", lambda self: And(self.x0 == INF and self.y0 == INF and self.x1 == -INF and self.y1 == -INF, INF == float("inf"),
+                                                    tuple(self.bbox) == (INF, INF, -INF, -INF), len(self._objs) == 0))
+# with that start the first member's box is the union (min(inf, a) = a, max(-inf, a) = a): proved by the scenario box-of-proper-lines-is-kept and by
+# every fresh line of the group_objects step
 
 c = contract("pdfminer.layout:LTExpandableContainer.add", props=["C08"])
 c.param("self", Comp("pdfminer.layout:LTExpandableContainer", ordered=False, _objs=T.Const("members"))).param("obj", Comp())
